@@ -243,8 +243,14 @@ pub fn templates(pat: &Sx, vars: &[(String, Option<usize>)], k: usize, all: bool
                 t.push(sym(v));
             }
         }
-        t.push(Sx::List(sub));
+        t.push(Sx::List(sub.clone()));
         t.push(sym("..."));
+        out.push(quote(Sx::List(t.clone())));
+        // (vi) the same with a VECTOR sub-template under the ellipsis, and a vector nested in a list
+        let n = t.len();
+        t[n - 2] = Sx::Vector(sub.clone());
+        out.push(quote(Sx::List(t.clone())));
+        t[n - 2] = Sx::List(vec![sub[0].clone(), Sx::Vector(sub)]);
         out.push(quote(Sx::List(t)));
     }
     out
@@ -732,7 +738,7 @@ pub fn run(ctx: &Ctx) -> i32 {
             tier: ctx.tier_name(),
             seed: ctx.seed,
             exhaustive: true,
-            rule: "every argument pattern (variables, _, a literal identifier, literal data 1 and #t, sub-lists and vectors of 1-3 elements nested <= 2, optional final ellipsis, no ellipsis under an ellipsis) up to the node bound, with every canonical template (flat dump, structure-preserving copy, vector, list sub-template under ellipsis / duplicated ellipsis variable) and literal sets () and (lit); all ordered pairs (thorough: triples) of small rules; against every use (0-4 arguments over 1 2 #t \"s\" lit foo with lists and vectors nested <= 2) up to the node bound; plus the literal-data matrix: each of 20 literal data (exact / inexact / ratio numbers of equal value, booleans, strings, characters, the empty list) as a pattern element at top level, in a sub-list, in a vector and twice in a list, against each of the 20 as the use; distinct = distinct expansions".into(),
+            rule: "every argument pattern (variables, _, a literal identifier, literal data 1 and #t, sub-lists and vectors of 1-3 elements nested <= 2, optional final ellipsis, no ellipsis under an ellipsis) up to the node bound, with every canonical template (flat dump, structure-preserving copy, vector, list / vector / vector-in-list sub-template under ellipsis, duplicated ellipsis variable) and literal sets () and (lit); all ordered pairs (thorough: triples) of small rules; against every use (0-4 arguments over 1 2 #t \"s\" lit foo with lists and vectors nested <= 2) up to the node bound; plus the literal-data matrix: each of 20 literal data (exact / inexact / ratio numbers of equal value, booleans, strings, characters, the empty list) as a pattern element at top level, in a sub-list, in a vector and twice in a list, against each of the 20 as the use; distinct = distinct expansions".into(),
             bounds: pl.descr.clone(),
             assumptions: vec!["refsyn written from R7RS 4.3.2 for the supported class; (rule set, use) pairs on which 'zero or more' and 'one or more' ellipsis semantics differ are outside the class and only counted".into()],
             wall_s: ctx.elapsed(),
